@@ -627,6 +627,7 @@ def gen_html_bodies():
             "p-br": lambda: N("p", N("br", tail=tk.v()), text=tk.v()),
             "list": lambda: N("ul", N("li", text=tk.v()), N("li", text=tk.v())),
             "nested-list": lambda: N("ul", N("li", N("ul", N("li", text=tk.v())), text=tk.v())),
+            "list-item-tails": lambda: N("ul", N("li", N("b", text=tk.v(), tail=tk.v()), text=tk.v(), tail=tk.v()), N("li", text=tk.v(), tail=tk.v())),
             "hr": lambda: N("div", N("hr", tail=tk.v()), text=tk.v()),
             "table": lambda: N("table", N("tr", td(text=tk.v()), td(text=tk.v())), N("tr", td(text=tk.v()))),
             "table-caption": lambda: N("table", N("caption", text=tk.v()), N("tr", td(text=tk.v()))),
